@@ -85,6 +85,17 @@ CHECKS["C02"] = dict(
     note="oracle trusted as specification; interior facets: mirrored '-' cell with identical local numbering and permutation code 0; Coq kernel for Affine.v/Flatten.v",
     design="DESIGN.md 3 C02")
 
+CHECKS["C04"] = dict(
+    technique="Coq proof: the printed index of A[point][component][dof] is the row-major position and distinct (point, component, dof) never alias (Flatten.v); oracle evaluation of the expression at the given points for every sampled expression; JIT descriptor compared with the UFL expression",
+    text="Per sampled expression (scalar/vector/tensor valued, rank 0 and 1, cell and facet points, affine and non-affine cells, mixed coefficients): every entry of A equals the expression evaluated at the point by the independent oracle, and the compiled ufcx_expression descriptor (points, value shape, rank, coefficient numbering, constants) matches the expression. Proved for all shapes: index layout lemmas. Per exported expression kernel the C05/C07/C08 theorems also apply. Partial: expressions sampled.",
+    note="oracle trusted as specification; expressions sampled; Coq kernel for Flatten.v; cffi JIT for the descriptor",
+    design="DESIGN.md 3 C04")
+CHECKS["C09"] = dict(
+    technique="Coq proof: finite exhaustive theorem over the formatter's math-function tables regenerated from /repo (every UFL math operator x 4 scalar types selects a function existing for the operand type, complex operands of real-only functions are rejected); oracle comparison of each form compiled for float32/float64/complex64/complex128 on data of that type",
+    text="Proved (finite, exhaustive over operators x scalar types, re-derived from the source on every run): the selected C function exists for the operand type; a complex operand never silently reaches a real-only function. Sampled: sesquilinear forms with complex data agree with the oracle evaluated in complex arithmetic with the test function conjugated, for all four scalar types; complex operands of erf/atan2/bessel must be rejected while real-valued operands still work.",
+    note="Coq kernel+VM; tr_math.py; oracle trusted as specification (Python math/cmath, own Bessel quadrature); glibc libm/complex.h",
+    design="DESIGN.md 3 C09")
+
 ALL = [f"C{i:02d}" for i in range(1, 21)]
 
 NOT_YET = "check not built yet in this session (work in progress; see DESIGN.md section 6 for the order of construction)"
